@@ -344,10 +344,19 @@ func TestVerifC06Log(t *testing.T) {
 		if err != nil {
 			t.Fatal(err)
 		}
+		var lines []string
 		for _, l := range strings.Split(strings.TrimSpace(string(data)), "\n") {
 			if l = strings.TrimSpace(l); l != "" && !strings.HasPrefix(l, "#") {
-				run(l)
+				lines = append(lines, l)
 			}
+		}
+		// a replay file of the writer-history runs starts with `case`: not for this stream
+		if len(lines) == 0 || lines[0] != "newlog" {
+			s.Count("replay-file-of-another-run-skipped")
+			return
+		}
+		for _, l := range lines {
+			run(l)
 		}
 		return
 	}
